@@ -31,9 +31,9 @@ theorem ref_addr_lookup (c : DwarfCfg) :
 
 /-- the Spec's form table, by form code: for every configuration the parser registered under
     the form's name reads the operand encoding DWARF prescribes for the form's code -/
-theorem form_lookup (c : DwarfCfg) (k : Nat) (hk : k ∈ formCodes) :
+theorem form_lookup (c : DwarfCfg) (k : Nat) (hk : k ∈ stdFormCodes) :
     (Spec.dwarfStructs c).form ((formName k).getD "") = (formClass c k).map (clsCon c.le) := by
-  simp only [formCodes, List.mem_cons, List.not_mem_nil, or_false] at hk
+  simp only [stdFormCodes, List.mem_cons, List.not_mem_nil, or_false] at hk
   rcases hk with rfl | rfl | rfl | rfl | rfl | rfl | rfl | rfl | rfl | rfl | rfl | rfl | rfl | rfl | rfl | rfl | rfl | rfl |
     rfl | rfl | rfl | rfl | rfl | rfl | rfl | rfl | rfl | rfl | rfl | rfl | rfl | rfl | rfl | rfl | rfl | rfl | rfl | rfl |
     rfl | rfl | rfl | rfl | rfl | rfl | rfl
